@@ -221,6 +221,24 @@ func (w *c10Worker) run(cs c10Case, mname string) (res c10Result) {
 		}
 	}
 	mdir := filepath.Join(n.Root, c10DB, mname)
+	if cs.ExtNames {
+		byDir := map[string][]string{}
+		for _, f := range vfix.ParquetFiles(n.Root, c10DB, mname) {
+			byDir[filepath.Dir(f)] = append(byDir[filepath.Dir(f)], f)
+		}
+		for d, fs := range byDir {
+			sort.Strings(fs)
+			for i, f := range fs {
+				if err := os.Rename(f, filepath.Join(d, fmt.Sprintf("part-%04d.parquet", i))); err != nil {
+					res.inconcl = fmt.Sprintf("case %d: rename: %v", cs.Idx, err)
+					return
+				}
+			}
+		}
+		if len(byDir) > 1 {
+			cnt("cases_with_shared_base_names_across_partitions", 1)
+		}
+	}
 
 	// 2. state before + reference evaluation (DuckDB three-valued logic, private engine)
 	before, perFile, dup, err := readMeasurement(n.Root, c10DB, mname)
